@@ -878,3 +878,5 @@ def run(ctx):
         "(thorough: EVERY row of length <= 5 over values {-2..2} x fill {-3..3} x every stored subset; quick: a sample of it) through both "
         "kernels, the model, the theorem statements and the public functions.  Non-trivial = the array/row has at least one element; "
         "distinct by content hash of (family, case).")
+    import extra_ops  # operation tables closing the measured coverage gaps (tools/coverage_audit.py; coverage/API_COVERAGE.md)
+    extra_ops.run(ctx, PID)
